@@ -92,12 +92,29 @@ end Inv
 
 /-! ## simulation -/
 
+theorem find_filter_map_id (g : Call → Call) (hg : ∀ k, (g k).id = k.id) (kp : String → Bool)
+    (id : String) (hid : kp id = true) (l : List Call) :
+    ((l.filter (fun k => kp k.id)).map g).find? (·.id == id) = (l.find? (·.id == id)).map g := by
+  induction l with
+  | nil => rfl
+  | cons a t ih =>
+    by_cases ha : a.id = id
+    · have hka : kp a.id = true := ha ▸ hid
+      have hga : ((g a).id == id) = true := by simp [hg, ha]
+      have haa : (a.id == id) = true := by simp [ha]
+      rw [List.filter_cons, if_pos hka, List.map_cons, List.find?_cons, hga, List.find?_cons, haa]
+      rfl
+    · have hne : (a.id == id) = false := by simpa using ha
+      cases hk : kp a.id
+      · simp [List.filter_cons, hk, hne, ih]
+      · simp [List.filter_cons, hk, hg, hne, ih]
+
 section Sim
 variable (ti ti' : TypeInfo) (p p' : Program)
 variable (N : String → String) (F : Callable → Callable) (G : Callable → Call → Call)
 variable (S : String → Env → Env) (O : String → Bool → RExp → RExp) (R : RExp → RExp)
 variable (good : Callable → Prop) (Ienv : Callable → Env → Prop) (Jo : Callable → RExp → Prop)
-variable (relN : String → Prop)
+variable (relN : String → Prop) (keep : Callable → String → Bool)
 
 /-- the callee (name, kind) of call `id` of `pipe`; `("", false)` when there is none -/
 def calleeOf (pipe : Callable) (id : String) : String × Bool :=
@@ -112,13 +129,18 @@ def calleeOf (pipe : Callable) (id : String) : String × Bool :=
 def Osib (pipe : Callable) (sib : String → RExp) : String → RExp := fun id =>
   O (calleeOf p pipe id).1 (calleeOf p pipe id).2 (sib id)
 
+/-- `sib'` (outputs of the calls of the edited pipeline) is the image of `sib` on the kept calls -/
+def SibAgree (pipe : Callable) (sib sib' : String → RExp) : Prop :=
+  ∀ i, keep pipe i = true → sib' i = Osib p O pipe sib i
+
 structure SimHyp : Prop where
   hfind1 : ∀ n d, p.find? n = some d → p'.find? (N n) = some (F d) ∧ good d
   hfind0 : ∀ n, relN n → p.find? n = none → p'.find? (N n) = none
   hrel : ∀ pipe, good pipe → ∀ k ∈ pipe.calls, relN k.decId
   hF : ∀ c, good c → (F c).isPipe = c.isPipe ∧ (F c).name = N c.name ∧
         (F c).outs.isEmpty = c.outs.isEmpty ∧ (F c).ret.isEmpty = c.ret.isEmpty
-  hcalls : ∀ pipe, good pipe → (F pipe).calls = pipe.calls.map (G pipe)
+  hcalls : ∀ pipe, good pipe →
+        (F pipe).calls = (pipe.calls.filter (fun k => keep pipe k.id)).map (G pipe)
   hGid : ∀ pipe k, (G pipe k).id = k.id
   hGdec : ∀ pipe, good pipe → ∀ k ∈ pipe.calls, (G pipe k).decId = N k.decId
   hfirst : ∀ pipe, good pipe → ∀ k ∈ pipe.calls, pipe.calls.find? (·.id == k.id) = some k
@@ -131,38 +153,40 @@ structure SimHyp : Prop where
       Ienv d (callIns ti pipe self sib d k)
   o2 : ∀ d ins sib, good d → d.isPipe = true → Ienv d ins → SibOK p Jo d sib →
       Jo d (pipeOuts ti d ins sib)
-  c5 : ∀ pipe self sib k d id, good pipe → Ienv pipe self → SibOK p Jo pipe sib →
+  c5 : ∀ pipe self sib sib' k d id, good pipe → Ienv pipe self → SibOK p Jo pipe sib →
+      SibAgree p O keep pipe sib sib' → keep pipe id = true →
       pipe.calls.find? (·.id == id) = some k → p.find? k.decId = some d →
-      callIns ti' (F pipe) (S pipe.name self) (Osib p O pipe sib) (F d) (G pipe k)
+      callIns ti' (F pipe) (S pipe.name self) sib' (F d) (G pipe k)
         = S d.name (callIns ti pipe self sib d k)
-  c6 : ∀ d ins sib, good d → d.isPipe = true → Ienv d ins → SibOK p Jo d sib →
-      pipeOuts ti' (F d) (S d.name ins) (Osib p O d sib) = O d.name true (pipeOuts ti d ins sib)
-  c7 : ∀ d ins sib, good d → d.isPipe = true → Ienv d ins → SibOK p Jo d sib →
-      pipeRetained (F d) (S d.name ins) (Osib p O d sib) = (pipeRetained d ins sib).map R
+  c6 : ∀ d ins sib sib', good d → d.isPipe = true → Ienv d ins → SibOK p Jo d sib →
+      SibAgree p O keep d sib sib' →
+      pipeOuts ti' (F d) (S d.name ins) sib' = O d.name true (pipeOuts ti d ins sib)
+  c7 : ∀ d ins sib sib', good d → d.isPipe = true → Ienv d ins → SibOK p Jo d sib →
+      SibAgree p O keep d sib sib' →
+      pipeRetained (F d) (S d.name ins) sib' = (pipeRetained d ins sib).map R
 
-variable {ti ti' p p' N F G S O R good Ienv Jo relN}
+variable {ti ti' p p' N F G S O R good Ienv Jo relN keep}
 
-theorem SimHyp.sibOK (h : SimHyp ti ti' p p' N F G S O R good Ienv Jo relN) :
+theorem SimHyp.sibOK (h : SimHyp ti ti' p p' N F G S O R good Ienv Jo relN keep) :
     ∀ fuel pipe self pre, good pipe → Ienv pipe self →
       SibOK p Jo pipe (callOutputs ti p fuel pipe self pre) :=
   callOutputs_inv ti p good Ienv Jo (fun n d hd => (h.hfind1 n d hd).2) h.o0 h.o0s h.o1 h.o2
 
-theorem sim_outputs (h : SimHyp ti ti' p p' N F G S O R good Ienv Jo relN) :
+theorem sim_outputs (h : SimHyp ti ti' p p' N F G S O R good Ienv Jo relN keep) :
     ∀ fuel pipe self pre, good pipe → Ienv pipe self →
-      callOutputs ti' p' fuel (F pipe) (S pipe.name self) pre
-        = Osib p O pipe (callOutputs ti p fuel pipe self pre) := by
+      SibAgree p O keep pipe (callOutputs ti p fuel pipe self pre)
+        (callOutputs ti' p' fuel (F pipe) (S pipe.name self) pre) := by
   intro fuel
   induction fuel with
   | zero =>
-    intro pipe self pre _ _
-    funext id
+    intro pipe self pre _ _ id _
     simp only [callOutputs, Osib, h.hO0]
   | succ fuel ih =>
-    intro pipe self pre hg hi
-    funext id
+    intro pipe self pre hg hi id hkeep
     have hsib := h.sibOK fuel pipe self pre hg hi
     simp only [Osib, calleeOf]
-    rw [callOutputs, h.hcalls pipe hg, find_map_id (G pipe) (fun k => h.hGid pipe k)]
+    rw [callOutputs, h.hcalls pipe hg,
+      find_filter_map_id (G pipe) (fun k => h.hGid pipe k) (keep pipe) id hkeep]
     cases hk : pipe.calls.find? (·.id == id) with
     | none => simp [callOutputs, hk, h.hO0]
     | some k =>
@@ -186,11 +210,9 @@ theorem sim_outputs (h : SimHyp ti ti' p p' N F G S O R good Ienv Jo relN) :
           simp only [Bool.not_true, Bool.false_eq_true, if_false]
           split
           · simp [h.hO0]
-          · rw [ih pipe self pre hg hi]
-            have hid := h.o1 pipe self _ k d id hg hi hsib hk hd
-            rw [h.c5 pipe self _ k d id hg hi hsib hk hd]
-            rw [ih d _ _ hgd hid]
-            exact h.c6 d _ _ hgd hp hid (h.sibOK fuel d _ _ hgd hid)
+          · have hid := h.o1 pipe self _ k d id hg hi hsib hk hd
+            rw [h.c5 pipe self _ _ k d id hg hi hsib (ih pipe self pre hg hi) hkeep hk hd]
+            exact h.c6 d _ _ _ hgd hp hid (h.sibOK fuel d _ _ hgd hid) (ih d _ _ hgd hid)
 
 /-- the image of a node under the edit -/
 def nodeMap (N : String → String) (S : String → Env → Env) (O : String → Bool → RExp → RExp)
@@ -199,17 +221,17 @@ def nodeMap (N : String → String) (S : String → Env → Env) (O : String →
     inputs := S n.callable n.inputs, outputs := O n.callable n.isPipe n.outputs,
     retained := n.retained.map R }
 
-theorem sim_nodes (h : SimHyp ti ti' p p' N F G S O R good Ienv Jo relN) (big : Nat) :
-    ∀ fuel pipe self pre k, good pipe → Ienv pipe self → k ∈ pipe.calls →
+theorem sim_nodes (h : SimHyp ti ti' p p' N F G S O R good Ienv Jo relN keep) (big : Nat) :
+    ∀ fuel pipe self pre k, good pipe → Ienv pipe self → k ∈ pipe.calls → keep pipe k.id = true →
       pipe.calls.find? (·.id == k.id) = some k →
       nodesOf ti' p' big fuel (F pipe) (S pipe.name self) pre (G pipe k)
-        = (nodesOf ti p big fuel pipe self pre k).map (nodeMap N S O R) := by
+        = (nodesOfKeep keep ti p big fuel pipe self pre k).map (nodeMap N S O R) := by
   intro fuel
   induction fuel with
   | zero => intros; rfl
   | succ fuel ih =>
-    intro pipe self pre k hg hi hmem hk
-    rw [nodesOf, nodesOf]
+    intro pipe self pre k hg hi hmem hkeep hk
+    rw [nodesOf, nodesOfKeep]
     simp only [h.hGdec pipe hg k hmem, h.hGid pipe k]
     cases hd : p.find? k.decId with
     | none => simp [h.hfind0 _ (h.hrel pipe hg k hmem) hd]
@@ -219,8 +241,8 @@ theorem sim_nodes (h : SimHyp ti ti' p p' N F G S O R good Ienv Jo relN) (big : 
       have hsib := h.sibOK big pipe self pre hg hi
       have hid := h.o1 pipe self _ k d k.id hg hi hsib hk hd
       simp only [hd', hF.1, hF.2.1]
-      rw [sim_outputs h big pipe self pre hg hi, h.c5 pipe self _ k d k.id hg hi hsib hk hd,
-          sim_outputs h (big + 1) pipe self pre hg hi, sim_outputs h big d _ _ hgd hid]
+      rw [h.c5 pipe self _ _ k d k.id hg hi hsib (sim_outputs h big pipe self pre hg hi) hkeep hk hd,
+          sim_outputs h (big + 1) pipe self pre hg hi k.id hkeep]
       simp only [List.map_cons, nodeMap]
       congr 1
       · -- the node itself
@@ -232,7 +254,7 @@ theorem sim_nodes (h : SimHyp ti ti' p p' N F G S O R good Ienv Jo relN) (big : 
         | false => simp
         | true =>
           simp only [if_true]
-          rw [h.c7 d _ _ hgd hp hid (h.sibOK big d _ _ hgd hid)]
+          rw [h.c7 d _ _ _ hgd hp hid (h.sibOK big d _ _ hgd hid) (sim_outputs h big d _ _ hgd hid)]
       · cases hp : d.isPipe with
         | false => simp
         | true =>
@@ -240,25 +262,74 @@ theorem sim_nodes (h : SimHyp ti ti' p p' N F G S O R good Ienv Jo relN) (big : 
           rw [h.hcalls d hgd, List.flatMap_map, List.map_flatMap]
           apply flatMap_congr'
           intro k' hk'
-          exact ih d _ _ k' hgd hid hk' (h.hfirst d hgd k' hk')
+          have hk'' := List.mem_filter.mp hk'
+          exact ih d _ _ k' hgd hid hk''.1 (by simpa using hk''.2) (h.hfirst d hgd k' hk''.1)
 
-theorem sim_graph (h : SimHyp ti ti' p p' N F G S O R good Ienv Jo relN)
+/-- the resolved call graph at an explicit unfolding budget -/
+theorem sim_graph_at (h : SimHyp ti ti' p p' N F G S O R good Ienv Jo relN keep) (big fuel : Nat)
+    (t : Call) (hgt : good (topPipe t)) (hit : Ienv (topPipe t) []) (hkt : keep (topPipe t) t.id = true)
+    (hFt : F (topPipe t) = topPipe (G (topPipe t) t)) (hS : S "" [] = []) :
+    nodesOf ti' p' big fuel (topPipe (G (topPipe t) t)) [] [] (G (topPipe t) t)
+      = (nodesOfKeep keep ti p big fuel (topPipe t) [] [] t).map (nodeMap N S O R) := by
+  have := sim_nodes h big fuel (topPipe t) [] [] t hgt hit (by simp [topPipe]) hkt (by simp [topPipe])
+  rw [hFt] at this
+  simpa [topPipe, hS] using this
+
+theorem sim_graph (h : SimHyp ti ti' p p' N F G S O R good Ienv Jo relN keep)
     (htop : ∀ t, p.top = some t → p'.top = some (G (topPipe t) t) ∧ F (topPipe t) = topPipe (G (topPipe t) t)
-        ∧ good (topPipe t) ∧ Ienv (topPipe t) [])
+        ∧ good (topPipe t) ∧ Ienv (topPipe t) [] ∧ keep (topPipe t) t.id = true)
     (htop0 : p.top = none → p'.top = none)
     (hS : S "" [] = []) (hfuel : graphFuel p' = graphFuel p) :
-    deepGraph ti' p' = (deepGraph ti p).map (nodeMap N S O R) := by
-  unfold deepGraph
+    deepGraph ti' p' = (deepGraphKeep keep ti p).map (nodeMap N S O R) := by
+  unfold deepGraph deepGraphKeep
   cases ht : p.top with
   | none => simp [htop0 ht]
   | some t =>
-    obtain ⟨ht', hFt, hgt, hit⟩ := htop t ht
+    obtain ⟨ht', hFt, hgt, hit, hkt⟩ := htop t ht
     simp only [ht', hfuel]
-    have := sim_nodes h (graphFuel p) (graphFuel p) (topPipe t) [] [] t hgt hit (by simp [topPipe])
-      (by simp [topPipe])
-    rw [hFt] at this
-    simpa [topPipe, hS] using this
+    exact sim_graph_at h _ _ t hgt hit hkt hFt hS
 
 end Sim
+
+theorem filter_true' (l : List Call) : l.filter (fun _ => true) = l := by
+  induction l with
+  | nil => rfl
+  | cons a t ih' => simp [List.filter_cons]
+
+theorem sibAgree_true {p : Program} {O : String → Bool → RExp → RExp} {pipe : Callable}
+    {sib sib' : String → RExp} (h : SibAgree p O (fun _ _ => true) pipe sib sib') :
+    sib' = Osib p O pipe sib := funext fun i => h i rfl
+
+theorem nodesOfKeep_true (ti : TypeInfo) (p : Program) (big : Nat) :
+    ∀ fuel pipe self pre k,
+      nodesOfKeep (fun _ _ => true) ti p big fuel pipe self pre k = nodesOf ti p big fuel pipe self pre k := by
+  intro fuel
+  induction fuel with
+  | zero => intros; rfl
+  | succ fuel ih =>
+    intro pipe self pre k
+    rw [nodesOfKeep, nodesOf]
+    cases hd : p.find? k.decId with
+    | none => rfl
+    | some d =>
+      have hft : ∀ l : List Call, l.filter (fun _ => true) = l := by
+        intro l
+        induction l with
+        | nil => rfl
+        | cons a t ih' => simp [List.filter_cons]
+      simp only [hft]
+      congr 1
+      split
+      · apply flatMap_congr'
+        intro k' _
+        exact ih d _ _ k'
+      · rfl
+
+theorem deepGraphKeep_true (ti : TypeInfo) (p : Program) :
+    deepGraphKeep (fun _ _ => true) ti p = deepGraph ti p := by
+  unfold deepGraphKeep deepGraph
+  cases p.top with
+  | none => rfl
+  | some t => exact nodesOfKeep_true ti p _ _ _ _ _ _
 
 end Proofs.RefactorGraph
